@@ -790,32 +790,47 @@ class GhostLog:
 
 
 def probe_rename_window(chk):
-    """Known finding rename_inbox_target_written_in_window: RENAME INBOX R1 (INBOX empty) held
-    at its BEGIN while another session APPENDs to the just created R1."""
-    ops = []
-    for c in ("c1", "c2"):
-        ops += [{"op": "open", "conn": c}, {"op": "send", "conn": c, "data": "i%s LOGIN %s pw\r\n" % (c, USER), "until": "tag:i" + c}]
-    ops += [{"op": "dump"}, {"op": "c03_gate_install", "user": USER}]
-    dry = C.run_ops(ops + [{"op": "c03_hold", "holder": {"conn": "c1", "steps": [{"data": "h1 RENAME INBOX R1\r\n", "until": "tag:h1"}]}, "others": [], "holds": []}], timeout=120)
-    try:
-        at = dry["obs"][-1]["points"].index("B")
-    except Exception:
-        return
-    ops.append({"op": "c03_hold", "dumps": True,
-                "holder": {"conn": "c1", "steps": [{"data": "h1 RENAME INBOX R1\r\n", "until": "tag:h1"}]},
-                "others": [{"conn": "c2", "steps": sched_append_steps("o1", "R1", 700)}], "holds": [{"at": at, "run": [0]}]})
-    ops.append({"op": "dump"})
-    r = C.run_ops(ops, timeout=120)
-    if r.get("crashed") or len(r.get("obs", [])) != len(ops):
-        return
-    ghost = GhostLog()
-    viols = ghost.step(user_store(r["obs"][-4]))
-    for st in (r["obs"][-2].get("dumps") or []):
-        viols += ghost.step(user_store({"stores": st}))
-    viols += ghost.step(user_store(r["obs"][-1]))
-    if viols:
-        chk.violation("RENAME INBOX R1 (INBOX empty) held at BEGIN while another session runs APPEND R1: %s" % viols[0],
-                      {"suite": "rename_window"}, cls="rename_inbox_target_written_in_window")
+    """RENAME INBOX R1 held at its BEGIN while another session writes to the just created R1.
+    (a) INBOX empty, APPEND R1: regression of raven 8552cfb (the target's counter was overwritten
+        downward) — must pass.
+    (b) INBOX holds UID 1; APPEND R1, STORE 1 \\Deleted, EXPUNGE: known finding
+        rename_inbox_target_uid_reused_in_window (no row is left for UNIQUE to refuse)."""
+    for variant in ("a", "b"):
+        ops = []
+        for c in ("c1", "c2"):
+            ops += [{"op": "open", "conn": c}, {"op": "send", "conn": c, "data": "i%s LOGIN %s pw\r\n" % (c, USER), "until": "tag:i" + c}]
+        if variant == "b":
+            for st in sched_append_steps("p1", "INBOX", 10):
+                ops.append(dict(st, op="send", conn="c1"))
+        ops += [{"op": "dump"}, {"op": "c03_gate_install", "user": USER}]
+        dry = C.run_ops(ops + [{"op": "c03_hold", "holder": {"conn": "c1", "steps": [{"data": "h1 RENAME INBOX R1\r\n", "until": "tag:h1"}]}, "others": [], "holds": []}], timeout=120)
+        try:
+            at = dry["obs"][-1]["points"].index("B")
+        except Exception:
+            continue
+        others = [{"conn": "c2", "steps": sched_append_steps("o1", "R1", 700)}]
+        if variant == "b":
+            others.append({"conn": "c2", "steps": [{"data": "o2 SELECT R1\r\n", "until": "tag:o2"},
+                                                   {"data": "o3 UID STORE 1 +FLAGS (\\Deleted)\r\n", "until": "tag:o3"},
+                                                   {"data": "o4 EXPUNGE\r\n", "until": "tag:o4"}]})
+        ops.append({"op": "c03_hold", "dumps": True,
+                    "holder": {"conn": "c1", "steps": [{"data": "h1 RENAME INBOX R1\r\n", "until": "tag:h1"}]},
+                    "others": others, "holds": [{"at": at, "run": list(range(len(others)))}]})
+        ops.append({"op": "dump"})
+        r = C.run_ops(ops, timeout=120)
+        if r.get("crashed") or len(r.get("obs", [])) != len(ops):
+            continue
+        ghost = GhostLog()
+        viols = ghost.step(user_store(r["obs"][-4]))
+        for st in (r["obs"][-2].get("dumps") or []):
+            viols += ghost.step(user_store({"stores": st}))
+        viols += ghost.step(user_store(r["obs"][-1]))
+        if viols and variant == "a":
+            chk.violation("RENAME INBOX R1 (INBOX empty) held at BEGIN while another session runs APPEND R1: %s" % viols[0],
+                          {"suite": "rename_window", "variant": "a"})
+        elif viols:
+            chk.violation("RENAME INBOX R1 (INBOX holds UID 1) held at BEGIN while another session runs APPEND R1; STORE 1 \\Deleted; EXPUNGE: %s" % viols[-1],
+                          {"suite": "rename_window", "variant": "b"}, cls="rename_inbox_target_uid_reused_in_window")
 
 
 def seq_specs(h, seq):
